@@ -108,6 +108,27 @@ pub fn run(ctx: &Ctx, rep: &mut Reporter) -> Json {
 }
 
 fn one_mapping(text: &[u8], rng: &mut Rng, rep: &mut Reporter, case_idx: u64, ctx: &Ctx, sigs: &mut std::collections::HashSet<u64>) -> u64 {
+    // ---- the mapping itself, shared cold (by reference and through clones)
+    {
+        let (nt, repeats, rounds) = if ctx.variant == "miri" { (3, 1, 1) } else { (*rng.pick(&[2usize, 4, 8, 16]), 4, 3) };
+        let window = &text[..text.len().min(if ctx.slow() { 4000 } else { 400_000 })];
+        for _ in 0..repeats {
+            let (alone, got, ov) = cur::mapping_shared_answers(window, nt, rounds);
+            rep.count("mapping_calls_overlapping_in_time", ov);
+            for g in &got {
+                rep.count("evaluations", 1);
+                rep.count("concurrent_mapping_answers_compared", 1);
+                if *g != alone {
+                    let mut d = mapping_detail(&window[..window.len().min(3000)], "shared ProguardMapping");
+                    d.set("threads", Json::i(nt as u64));
+                    d.set("answer_alone", Json::s(alone.clone()));
+                    d.set("answer_concurrent", Json::s(g.clone()));
+                    rep.violation(case_idx, "concurrent-vs-sequential", "a shared ProguardMapping (or a clone of it) answered a file-level question differently under concurrent use than alone", d);
+                    break;
+                }
+            }
+        }
+    }
     let (items, _) = cur::records(text, usize::MAX);
     let u = from_records(&items, false);
     drop(items);
